@@ -11,17 +11,19 @@ import (
 type Node struct {
 	Text string
 	Kids []*Node
+	Cont []string // continuation lines of the same construct (inside [...] / (...)): rendered with the SAME leading whitespace
 }
 
-func nd(t string, kids ...*Node) *Node { return &Node{t, kids} }
+func nd(t string, kids ...*Node) *Node { return &Node{Text: t, Kids: kids} }
 
 type gen struct {
-	r     *common.Rng
-	n     int
-	depth int
+	r      *common.Rng
+	n      int
+	depth  int
+	budget int // multi-line-construct specs: rough number of statements left
 }
 
-func (g *gen) name(p string) string { g.n++; return fmt.Sprintf("%s%d", p, g.n) }
+func (g *gen) name(p string) string     { g.n++; return fmt.Sprintf("%s%d", p, g.n) }
 func (g *gen) pick(xs ...string) string { return xs[g.r.Intn(len(xs))] }
 
 var prims = []string{"int", "string", "bool", "date", "datetime", "decimal(12.2)", "string(20)", "float", "int64", "bytes", "any"}
@@ -239,8 +241,20 @@ func (g *gen) app() *Node {
 	return a
 }
 
-func (g *gen) spec() []*Node {
+// imports of the files every generated text is compiled with (real.go depFiles)
+func (g *gen) imports() []*Node {
 	var out []*Node
+	if g.r.Chance(1, 3) {
+		out = append(out, nd("import "+g.pick("dep", "dep.sysl", "/dep")))
+		if g.r.Chance(1, 2) {
+			out = append(out, nd("import "+g.pick("sub/dep2", "/sub/dep2.sysl")))
+		}
+	}
+	return out
+}
+
+func (g *gen) spec() []*Node {
+	out := g.imports()
 	for i, k := 0, 1+g.r.Intn(3); i < k; i++ {
 		out = append(out, g.app())
 	}
@@ -303,6 +317,12 @@ func render(r *common.Rng, roots []*Node, o renderOpts) string {
 		}
 		first = false
 		sb.WriteString(l + n.Text + "\n")
+		for _, c := range n.Cont {
+			if o.blanks && r.Chance(1, 8) {
+				sb.WriteString(strings.Repeat(" ", r.Intn(6)) + "\n")
+			}
+			sb.WriteString(l + c + "\n")
+		}
 		if o.blanks && r.Chance(1, 10) {
 			sb.WriteString(strings.Repeat(" ", r.Intn(6)) + "\n")
 		}
